@@ -392,8 +392,15 @@ pub fn generate(rng: &mut Rng, mode: Prop) -> Scenario {
         if b >= 1 {
             progs[a] = gen_view_long((a + 1) as u8);
             progs[b] = gen_view_short(&progs[a].clone(), a);
-            if let Some(i) = (1..packets.len()).find(|i| prefix_of[*i].is_none() && !packets[*i].is_empty()) {
-                packets[i][0] = 5;
+            match (1..packets.len()).find(|i| prefix_of[*i].is_none() && !packets[*i].is_empty()) {
+                Some(i) => packets[i][0] = 5,
+                None => {
+                    // no packet of its own to mark: one more packet, starting with the byte
+                    let mut p: Vec<u8> = (0..rng.range(8, 40)).map(|_| rng.next_u64() as u8).collect();
+                    p[0] = 5;
+                    packets.push(p);
+                    prefix_of.push(None);
+                }
             }
         }
     }
